@@ -13,6 +13,7 @@
   a single collective call `Coll.colourDispatch` on the colour communicator.
 -/
 import PomerolModel.Model.Parallel
+import PomerolModel.Spec.CollectProps
 
 namespace Pomerol.Properties.C06
 open Pomerol.Gen.Split Pomerol.Model.Par
@@ -226,5 +227,169 @@ theorem world_barrier_mismatch :
     worldCalls (collectiveSequence 2 3 0) = worldCalls (collectiveSequence 2 3 1) := by
   decide
 
-end Pomerol.Properties.C06
+/-! ### after the dispatch: what the callers do with the job-to-rank map
 
+Model `Model/Collect.lean`, proofs `Spec/CollectProps.lean`.  `Hamiltonian::prepare`, `Hamiltonian::compute`
+and `TwoParticleGF::compute` run `mpi_skel::run` and then (a) broadcast the data of every part from the rank
+`job_map[p]` and (b) (`TwoParticleGF::compute`) sum the rank-local frequency tables onto rank 0.
+
+NOT modelled: floating-point rounding.  The table entries are elements of an abstract additive commutative monoid,
+so the theorems say that the distributed run and the single-rank run add up THE SAME TERMS, each once; they do not
+say that two floating-point summations of these terms in different orders give bitwise identical results. -/
+
+section Collect
+open Pomerol.Model.Collect Pomerol.Spec.Collect
+open Pomerol.Model.Disp (Sys allExited)
+open Pomerol.Spec.Disp (Reachable)
+
+/-- After the broadcast loop every rank holds every part.  `P` ranks, `J` parts; `owner` is the job-to-rank
+map, each part has been computed (value `result p`) by the rank the map names, and every other rank holds
+arbitrary stale data `stale r p` for it.  If the map only names ranks of the communicator, then after
+`for p: broadcast(data of part p, root = owner p)` every rank holds `result p` for every part `p`: all ranks
+hold the same, complete data, whatever they held before. -/
+theorem all_ranks_hold_all_parts {α : Type} (P J : Nat) (owner : Nat → Nat) (result : Nat → α)
+    (stale : Nat → Nat → Option α) (hown : ∀ p, p < J → owner p < P) :
+    (∀ r p, r < P → p < J →
+      entry (bcastAll J owner (initWorld P J (ranByMap owner) result stale)) r p = some (result p)) ∧
+    bcastAll J owner (initWorld P J (ranByMap owner) result stale) =
+      List.replicate P ((List.range J).map fun p => some (result p)) :=
+  ⟨fun r p hr hp => bcast_all_ranks_agree P J owner result stale hown r p hr hp,
+   bcast_all_ranks_agree_world P J owner (ranByMap owner) result stale
+    (fun p hp => ⟨hown p hp, by simp [ranByMap]⟩)⟩
+
+/-- Why the map has to name the rank that really executed the part: if for some part `p` the rank named by the
+map did not execute it, then after the loop every rank, including the one that computed `p` correctly, holds
+the stale data of the named rank. -/
+theorem wrong_map_spreads_stale_data {α : Type} (P J : Nat) (owner : Nat → Nat) (ran : Nat → Nat → Bool)
+    (result : Nat → α) (stale : Nat → Nat → Option α) (p : Nat) (hp : p < J) (hown : owner p < P)
+    (hwrong : ran (owner p) p = false) (r : Nat) (hr : r < P) :
+    entry (bcastAll J owner (initWorld P J ran result stale)) r p = stale (owner p) p :=
+  bcast_wrong_owner_spreads_stale P J owner ran result stale p hp hown hwrong r hr
+
+/-- The table on the root equals the serial table.  Every rank starts with a table of `F` zeros; every
+execution `(p, r)` of the log adds the contribution vector `contrib p` to the table of rank `r`; the reduction
+delivers on rank 0 the entrywise sum over the `P` ranks.  If every part `p < J` has been executed exactly once,
+on some rank `< P` (this is what C16 proves for the dispatcher), the delivered table is the table a single rank
+accumulates by executing parts `0 … J-1` in order, and its entry `w` is the sum over all parts of their entry
+`w`: the result does not depend on the number of ranks, on which rank ran which part, or on the order of
+execution.  (Exact arithmetic; floating-point re-association is not modelled.) -/
+theorem root_table_equals_serial_table {β : Type} [AddCommMonoid β] (P J F : Nat) (contrib : Nat → List β)
+    (log : List (Nat × Nat)) (h : ExactlyOnce P J log) :
+    reduceTables P F contrib log = serialTable J F contrib ∧
+    (reduceTables P F contrib log).length = F ∧
+    ∀ w, w < F → (reduceTables P F contrib log).getD w 0 = ∑ p ∈ Finset.range J, (contrib p).getD w 0 :=
+  reduce_is_sum_over_parts P J F contrib log h
+
+/-- the same for "part `p` runs on rank `owner p`", and: the serial table is the distributed procedure on one
+rank -/
+theorem root_table_independent_of_map_and_size {β : Type} [AddCommMonoid β] (P J F : Nat) (contrib : Nat → List β)
+    (owner : Nat → Nat) (hown : ∀ p, p < J → owner p < P) :
+    reduceTables P F contrib (ownerLog J owner) = reduceTables 1 F contrib (ownerLog J fun _ => 0) := by
+  rw [reduce_owner_is_serial P J F contrib owner hown, serialTable_eq_single_rank]
+
+/-- Why "exactly once" matters: a part executed a second time (anywhere in the execution order, on any rank)
+is counted twice in the table. -/
+theorem double_execution_counts_twice {β : Type} [AddCommMonoid β] (P J F : Nat) (contrib : Nat → List β)
+    (log log' : List (Nat × Nat)) (h : ExactlyOnce P J log) (p r' : Nat) (hr' : r' < P)
+    (hperm : log'.Perm ((p, r') :: log)) (w : Nat) (hw : w < F) :
+    (reduceTables P F contrib log').getD w 0 = (serialTable J F contrib).getD w 0 + (contrib p).getD w 0 :=
+  reduce_double_execution_counts_twice P J F contrib log log' h p r' hr' hperm w hw
+
+/-- A distributed step computes what a serial step computes.  Take ANY finished round of the dispatcher model:
+`P ≥ 1` ranks, the `J` jobs `0 … J-1` in any order, any interleaving of the ranks and any message delays, all
+ranks out of the loop.  Use its dispatch map as `job_map` (a missing key reads as 0, as `std::map::operator[]`
+does) and its execution log as the record of who computed what.  Then
+(i) after the broadcast loop every rank holds, for every part, the result computed by the rank that executed
+it -- identical, complete data on all ranks, whatever stale data they held; and
+(ii) the table reduced onto rank 0 is the table of a single-rank run, entry `w` being the sum over all parts.
+(Exact arithmetic; floating-point re-association is not modelled.) -/
+theorem distributed_step_refines_serial {α β : Type} [AddCommMonoid β] (P J : Nat) (jobs : List Nat) (hP : 0 < P)
+    (hjobs : jobs.Perm (List.range J)) (s : Sys) (h : Reachable P jobs s) (hf : allExited s = true)
+    (result : Nat → α) (stale : Nat → Nat → Option α) (F : Nat) (contrib : Nat → List β) :
+    (∀ r p, r < P → p < J →
+      entry (bcastAll J (ownerOfMap s.m.dmap) (initWorld P J (ranByLog s.log) result stale)) r p
+        = some (result p)) ∧
+    bcastAll J (ownerOfMap s.m.dmap) (initWorld P J (ranByLog s.log) result stale)
+      = List.replicate P ((List.range J).map fun p => some (result p)) ∧
+    reduceTables P F contrib s.log = serialTable J F contrib ∧
+    (∀ w, w < F → (reduceTables P F contrib s.log).getD w 0 = ∑ p ∈ Finset.range J, (contrib p).getD w 0) :=
+  Pomerol.Spec.Collect.distributed_step_refines_serial P J jobs hP hjobs s h hf result stale F contrib
+
+/-! #### concrete instances: 3 ranks, 4 parts -/
+
+/-- part → rank -/
+def exOwner (p : Nat) : Nat := [2, 0, 1, 2].getD p 0
+/-- the value computed for part `p` -/
+def exResult (p : Nat) : Nat := 10 + p
+/-- stale data: rank 0 holds nothing, the others hold old values -/
+def exStale (r p : Nat) : Option Nat := if r = 0 then none else some (900 + 10 * r + p)
+/-- contributions of the 4 parts to a table with 2 frequencies -/
+def exContrib (p : Nat) : List Nat := [[1, 2], [10, 20], [100, 200], [1000, 2000]].getD p []
+
+/-- before the loop the ranks hold different data … -/
+example : initWorld 3 4 (ranByMap exOwner) exResult exStale =
+    [[none, some 11, none, none],
+     [some 910, some 911, some 12, some 913],
+     [some 10, some 921, some 922, some 13]] := by decide
+
+/-- … afterwards all hold the four results -/
+example : bcastAll 4 exOwner (initWorld 3 4 (ranByMap exOwner) exResult exStale) =
+    List.replicate 3 [some 10, some 11, some 12, some 13] := by decide
+
+/-- the hypothesis of `all_ranks_hold_all_parts` holds for this instance -/
+example : ∀ p, p < 4 → exOwner p < 3 := by decide
+
+/-- a wrong map (part 2 was executed by rank 1, the map says rank 2): everybody, rank 1 included, ends up with
+the stale value 922 of rank 2 -/
+example : bcastAll 4 (fun p => if p = 2 then 2 else exOwner p) (initWorld 3 4 (ranByMap exOwner) exResult exStale) =
+    List.replicate 3 [some 10, some 11, some 922, some 13] := by decide
+
+/-- the reduced table of the 3-rank run is the serial table … -/
+example : reduceTables 3 2 exContrib (ownerLog 4 exOwner) = [1111, 2222] ∧
+    serialTable 4 2 exContrib = [1111, 2222] ∧
+    reduceWorld 3 2 exContrib (ownerLog 4 exOwner) = [[1111, 2222], [0, 0], [0, 0]] := by decide
+
+/-- … while the rank-local tables differ -/
+example : (List.range 3).map (localTable 2 exContrib (ownerLog 4 exOwner)) =
+    [[10, 20], [100, 200], [1001, 2002]] := by decide
+
+/-- the hypothesis of `root_table_equals_serial_table` holds for this instance -/
+example : ExactlyOnce 3 4 (ownerLog 4 exOwner) := ownerLog_exactlyOnce 3 4 exOwner (by decide)
+
+/-- part 1 executed a second time, on rank 2: counted twice -/
+example : reduceTables 3 2 exContrib ((1, 2) :: ownerLog 4 exOwner) = [1121, 2242] := by decide
+
+/-- a complete round of the dispatcher model with 3 ranks and job order `[2, 0, 3, 1]` under a schedule with
+message delays … -/
+def exSched : List (Nat × Bool) :=
+  [(0, true), (1, true), (2, true), (0, true), (1, false), (2, false), (0, true), (1, false), (2, false),
+   (0, true), (1, false), (2, true), (0, false), (1, false), (2, false), (0, false), (1, false), (2, false),
+   (0, false), (1, false), (2, false), (0, true), (1, true), (2, true), (0, true), (0, false), (0, false),
+   (0, false)]
+
+/-- … ends with all ranks out of the loop, execution log `[(2,0), (0,1), (3,2), (1,2)]` (part, rank) and the
+matching map: the hypotheses of `distributed_step_refines_serial` are satisfiable -/
+example : (Pomerol.Model.Disp.run (Pomerol.Model.Disp.init 3 [2, 0, 3, 1]) exSched).map
+      (fun s => (allExited s, s.log, (List.range 4).map (ownerOfMap s.m.dmap))) =
+    some (true, [(2, 0), (0, 1), (3, 2), (1, 2)], [1, 2, 0, 2]) := by decide
+
+example : [2, 0, 3, 1].Perm (List.range 4) := by decide
+
+/-- the collection phase fed with the outcome of that round -/
+example : (Pomerol.Model.Disp.run (Pomerol.Model.Disp.init 3 [2, 0, 3, 1]) exSched).map
+      (fun s => (bcastAll 4 (ownerOfMap s.m.dmap) (initWorld 3 4 (ranByLog s.log) exResult exStale),
+                 reduceTables 3 2 exContrib s.log)) =
+    some (List.replicate 3 [some 10, some 11, some 12, some 13], [1111, 2222]) := by decide
+
+end Collect
+
+/-- The facts about the source on which the model `Model/Collect.lean` rests, EXTRACTED by the translator on every run
+(`Generated/SplitFormulas.lean`; the translator fails when the code no longer has this shape): in
+`Hamiltonian::prepare/compute` every part is broadcast with root `job_map[p]` (on both sides of the owner test, whatever
+the block size) after the owner checked that it did the part; in `TwoParticleGF::compute` the table is allocated on every
+rank, reduced with `std::plus` to rank 0, and the term lists of every part are broadcast with root `job_map[p]`. -/
+theorem source_collective_pattern :
+    Pomerol.Gen.Split.hamiltonianBroadcastsFromOwner = true ∧
+    Pomerol.Gen.Split.twoParticleReducesToRootAndBroadcastsFromOwner = true := ⟨rfl, rfl⟩
+
+end Pomerol.Properties.C06
